@@ -774,9 +774,27 @@ class Engine(object):
                 m3 = None
             if m3 is not None:
                 m = m3
-            self.findings.append(Finding(
-                label, 'obligation', detail or str(t)[:300],
-                list(self.trace), self.model_dict(m)))
+            f = Finding(label, 'obligation', detail or str(t)[:300],
+                        list(self.trace), self.model_dict(m))
+            # further counterexamples with clearly different values (a
+            # concrete replay can sit on a rounding boundary)
+            f.alt_models = []
+            vals = [x for _, x in self.inputs + self.apps if z3.is_real(x)]
+            prev = [m]
+            for _ in range(2):
+                if not vals:
+                    break
+                far = z3.And(*[z3.Or(*[z3.Or(
+                    x >= pm.eval(x, model_completion=True) + z3.RealVal('1/4'),
+                    x <= pm.eval(x, model_completion=True) - z3.RealVal('1/4'))
+                    for x in vals[:40]]) for pm in prev])
+                r4, m4 = self._check(z3.And(z3.Not(t), far, *[
+                    z3.And(x >= -40, x <= 40) for x in vals]))
+                if r4 != 'sat':
+                    break
+                prev.append(m4)
+                f.alt_models.append(self.model_dict(m4))
+            self.findings.append(f)
             return False
         self.stats['inconclusive'] += 1
         self.notes.append('INCONCLUSIVE %s: solver answered unknown' % label)
@@ -1069,7 +1087,7 @@ def realistic_model(eng, extra=None, rounds=12):
         if extra is not None:
             s.add(extra)
         if not apps:
-            tame = [z3.And(c >= -30, c <= 30) for c in reals]
+            tame = [z3.And(c >= -10, c <= 10) for c in reals]
             s.push()
             if tame:
                 s.add(*tame)
@@ -1079,8 +1097,8 @@ def realistic_model(eng, extra=None, rounds=12):
             if m is None and s.check() == z3.sat:
                 m = s.model()
             return m
-        tame = [z3.And(c >= -30, c <= 30) for c in reals]
-        tame += [z3.And(x >= -30, x <= 30) for _, x in eng.apps
+        tame = [z3.And(c >= -10, c <= 10) for c in reals]
+        tame += [z3.And(x >= -10, x <= 10) for _, x in eng.apps
                  if z3.is_real(x)]
         lemmas = []
         use_tame = bool(tame)
